@@ -400,6 +400,8 @@ class World(object):
 
         if is_pulled:
             dest_sim.pulled_inputs.setdefault((src_sim, delay), set()).add((src_port, dest_port))
+            # (No initial data unless it is given below.)
+            dest_sim.pulled_initial_data[(src_sim, delay, src_port, dest_port)] = None
         else:
             src_sim.output_to_push.setdefault(src_port, []).append((dest_sim, delay, dest_port))
 
@@ -414,6 +416,16 @@ class World(object):
                 src_sim.outputs.setdefault(
                     -int(time_shifted), {}
                 ).setdefault(src.eid, {})[src_attr] = initial_data
+                # get_output_for relies on the entries being ordered by
+                # time.
+                src_sim.outputs = dict(sorted(src_sim.outputs.items()))
+                # Several connections from the same simulator (with
+                # different time shifts or different initial data) would
+                # overwrite or hide each other's initial data in the
+                # cache, so it is also stored for this very connection.
+                dest_sim.pulled_initial_data[
+                    (src_sim, delay, src_port, dest_port)
+                ] = initial_data
             else:
                 dest_sim.persistent_inputs.setdefault(
                     dest.eid, {}
